@@ -23,6 +23,9 @@ def opOf? (srcs : List Source) (npfx naset npol : Nat) (pre : Bool) : Term → O
       match srcs[i]? with
       | some src => if src.kind = .peer then pure (.llgr i) else none
       | none => none
+  | .list [.atom "nh", a, up] => do
+      if pre then none
+      pure (.nh (← nat32? a) (← asBool? up))
   | .list [.atom "reset", k] =>
       if pre then none else
       match k with
@@ -41,7 +44,7 @@ def pfxOf? (k : Nat) : Term → Option (Net × Nat)
   | _ => none
 
 def caseOf? : Term → Option Case01
-  | .list [.atom "c01", .list [.atom "shards", k], ctx, sess, .list [.atom "pol0", pol],
+  | .list [.atom "c01", .list [.atom "shards", k], ctx, sess, .list [.atom "pol0", pol], .list [.atom "imp", imp],
            .list (.atom "srcs" :: srcs), .list (.atom "pfxs" :: pfxs), .list (.atom "asets" :: asets),
            .list (.atom "pols" :: pols), .list (.atom "pre" :: pre), .list (.atom "ops" :: ops)] => do
       let k ← asNat? k
@@ -53,9 +56,13 @@ def caseOf? : Term → Option Case01
       if !(pfxs.map (·.1)).Nodup then none else
       let asets ← asets.mapM attrsOf?
       let pols ← pols.mapM policyOf?
+      let imp ← match imp with
+        | .atom "none" => some none
+        | .list [.atom "origin", v] => do let v ← asNat? v; if v < 256 then some (some v) else none
+        | _ => none
       let pre ← pre.mapM (opOf? srcs pfxs.length asets.length pols.length true)
       let ops ← ops.mapM (opOf? srcs pfxs.length asets.length pols.length false)
-      pure ⟨k, s, srcs, pfxs, asets, pols, pre, ops⟩
+      pure ⟨k, s, srcs, pfxs, asets, pols, imp, pre, ops⟩
   | _ => none
 
 def routeLt (a b : Route) : Bool :=
